@@ -1102,6 +1102,17 @@ def r35_unwrap_or_else(src, item, ed, opts):
         ed.count("R35")
 
 
+def _option_site(src, n, opts):
+    """`option_map = true`: every `.map(closure)` / `.filter(closure)` of the function is Option's; `option_map =
+    "regex"`: those whose receiver (whitespace-free text) matches"""
+    om = opts.get("option_map")
+    if not om:
+        return False
+    if om is True:
+        return True
+    return re.search(om, re.sub(r"\s+", "", src.text(*n["receiver"]))) is not None
+
+
 def r40_and_then(src, item, ed, opts):
     """`O.and_then(|P| E)` -> `(match O { Some(P) => E, None => None })` and `O.map_or(D, |P| E)` ->
     `(match (O, D) { (Some(P), _) => E, (None, d) => d })`: the definitions of Option::and_then / Option::map_or (D is a
@@ -1110,7 +1121,7 @@ def r40_and_then(src, item, ed, opts):
     function); edits inside O, D and E still apply"""
     clos = {tuple(c["range"]): c for c in nodes_of(item, "closure")}
     for n in nodes_of(item, "methodcall"):
-        if n["method"] == "map" and len(n["args"]) == 1 and opts.get("option_map"):
+        if n["method"] == "map" and len(n["args"]) == 1 and _option_site(src, n, opts):
             # (opt-in per function: `option_map = true` says every `.map(closure)` of it is Option::map)
             # `O.map(|P| E)` -> `(match O { Some(P) => Some(E), None => None })`: the definition of Option::map
             cn = clos.get(tuple(n["args"][0]["range"]))
@@ -1125,7 +1136,7 @@ def r40_and_then(src, item, ed, opts):
             ed.replace(cn["body"][1], n["range"][1], "), None => None })", "R40")
             ed.count("R40")
             continue
-        if n["method"] == "filter" and len(n["args"]) == 1 and opts.get("option_map"):
+        if n["method"] == "filter" and len(n["args"]) == 1 and _option_site(src, n, opts):
             # (same opt-in) `O.filter(|P| E)` -> `(match O { Some(f) => { let keep = { let P = &f; E }; if keep { Some(f) }
             # else { None } }, None => None })`: the definition of Option::filter
             cn = clos.get(tuple(n["args"][0]["range"]))
